@@ -287,6 +287,26 @@ def run(chk: Check) -> None:
         ss = rng.choice([None, None, "strict", "LAX", "None", "nOnE"])
         sec, ho, part = rng.random() < 0.3, rng.random() < 0.3, rng.random() < 0.2
         attr_cases.append((_gen_key(rng), _gen_value(rng), dom, exp, ma, sec, ho, path, ss, part))
+    # Expires synchronised from Max-Age (sync_expires, the default): present exactly when max_age is given
+    # (0 and timedelta(0) included) and no explicit expires; its instant is now + max_age
+    import datetime as _dt
+    for ma in [0, 1, 3600, -1, _dt.timedelta(0), _dt.timedelta(seconds=5), _dt.timedelta(milliseconds=300), None] * (3 if quick else 30):
+        for exp in (None, "Thu, 01 Jan 2026 00:00:00 GMT", 0):
+            t0 = _dt.datetime.now(tz=_dt.timezone.utc).timestamp()
+            hdr = whttp.dump_cookie("k", "v", max_age=ma, expires=exp, path=None)
+            pieces = hdr.split("; ")[1:]
+            names = [p.split("=")[0] for p in pieces]
+            secs = int(ma.total_seconds()) if isinstance(ma, _dt.timedelta) else ma
+            want_names = (["Expires"] if (exp is not None or ma is not None) else []) + (["Max-Age"] if ma is not None else [])
+            ok = names == want_names
+            if ok and exp is None and ma is not None:
+                got = whttp.parse_date(dict(p.split("=", 1) for p in pieces)["Expires"])
+                ok = got is not None and abs(got.timestamp() - (t0 + secs)) <= 3
+            if ok and ma is not None:
+                ok = dict(p.split("=", 1) for p in pieces)["Max-Age"] == str(secs)
+            if not ok:
+                chk.fail("attributes", f"max_age={ma!r} expires={exp!r}: attributes {pieces!r}", {"max_age": repr(ma), "expires": repr(exp), "header": hdr})
+            chk.case(("sync", repr(ma), repr(exp)), True)
     for (k, v, dom, exp, ma, sec, ho, path, ss, part) in attr_cases:
         rdom = dom.partition(":")[0].lstrip(".").encode("idna").decode("ascii") if dom else None
         rpath = quote(path, safe="%!$&'()*+,/:=@") if path is not None else None
